@@ -1164,6 +1164,16 @@ func init() {
 		return tuple{iface{t: t, v: nativePtr(sched)}, iface{}}
 	})
 	reg("(*github.com/robfig/cron/v3.SpecSchedule).Next", func(fr *frame, a []value) value {
+		if p, ok := a[0].(*value); ok && p != nil {
+			if _, native := (*p).(*nativeVal); !native {
+				// a schedule parsed from symbolic text: its activation times are unknown
+				fr.i.stubsHit["cron.SpecSchedule.Next on a symbolic schedule = unknown time"]++
+				return &nativeVal{timeUnknown{}}
+			}
+		}
+		if _, unk := a[1].(*nativeVal).v.(timeUnknown); unk {
+			return &nativeVal{timeUnknown{}}
+		}
 		sched := nativeOf(a[0]).(cron.Schedule)
 		t := a[1].(*nativeVal).v.(time.Time)
 		return &nativeVal{sched.Next(t)}
@@ -1172,10 +1182,36 @@ func init() {
 		return &nativeVal{time.Unix(asInt64(a[0]), asInt64(a[1]))}
 	})
 	reg("(time.Time).Sub", func(fr *frame, a []value) value {
+		_, u0 := a[0].(*nativeVal).v.(timeUnknown)
+		_, u1 := a[1].(*nativeVal).v.(timeUnknown)
+		if u0 || u1 {
+			return &Sym{fr.i.tt.Var(fr.i.freshName("duration"), 64), types.Int64}
+		}
 		return int64(a[0].(*nativeVal).v.(time.Time).Sub(a[1].(*nativeVal).v.(time.Time)))
 	})
 	reg("(time.Duration).Seconds", func(fr *frame, a []value) value {
+		if _, sym := a[0].(*Sym); sym {
+			fr.i.symN++
+			return &symFloat{class: fFinite, id: fr.i.symN}
+		}
 		return time.Duration(asInt64(a[0])).Seconds()
+	})
+	reg("time.LoadLocation", func(fr *frame, a []value) value {
+		i := fr.i
+		name, ok := a[0].(string)
+		if !ok {
+			// unknown zone name: either it does not exist or it is some zone
+			i.stubsHit["time.LoadLocation of a symbolic name = error or some zone"]++
+			if i.choose(2, "loadlocation") == 0 {
+				return tuple{(*value)(nil), i.newError("unknown time zone")}
+			}
+			return tuple{nativePtr(time.UTC), iface{}}
+		}
+		loc, err := time.LoadLocation(name)
+		if err != nil {
+			return tuple{(*value)(nil), i.newError(err.Error())}
+		}
+		return tuple{nativePtr(loc), iface{}}
 	})
 	reg("(time.Duration).Milliseconds", func(fr *frame, a []value) value {
 		return time.Duration(asInt64(a[0])).Milliseconds()
@@ -1482,6 +1518,9 @@ const (
 )
 
 // symFloat is an opaque float: only its class is known.
+// timeUnknown stands for a time.Time the engine knows nothing about.
+type timeUnknown struct{}
+
 type symFloat struct {
 	class floatClass
 	id    int
@@ -1609,7 +1648,7 @@ func (i *interpreter) msgHasRaw(msg value, pred func(byte) bool) *Term {
 				} else {
 					r = tt.Or(r, i.msgHasRaw(p.lit, pred))
 				}
-			case p.verb == "%q" || p.verb == "%d" || p.verb == "%x" || p.verb == "%U" || p.verb == "%t":
+			case p.verb == "%q" || p.verb == "%d" || p.verb == "%x" || p.verb == "%U" || p.verb == "%t" || p.verb == "%g" || p.verb == "%f" || p.verb == "%e":
 				// quoted / numeric renderings never contain raw control bytes
 			case p.verb == "%c":
 				if s, ok := p.arg.(*Sym); ok {
